@@ -146,6 +146,7 @@ fn any_rx() -> Rx {
 
 /// `st`: 0 Idle, 1 SendingData, 2 WaitingForRxWindow, 3 WaitingForRx
 fn nb_step(st: u8) {
+    crate::mac::verif_kani_lorawan_device_mac_common::vinit();
     let start: u32 = kani::any();
     let frame = any_frame();
     let is_data = matches!(frame, Frame::Data);
@@ -188,31 +189,31 @@ fn nb_step(st: u8) {
         // ---- C06: invariant preserved -- back in Idle (the only state that accepts a new send)
         // means the counter of a frame handed to the radio has been consumed or expiry reported
         if let State::Idle(_) = next {
-            assert!(!G_INFLIGHT, "C06: back in Idle although the frame handed to the radio has not consumed its counter: the next uplink reuses it");
+            crate::vcheck!(!G_INFLIGHT, "C06: back in Idle although the frame handed to the radio has not consumed its counter: the next uplink reuses it");
         }
-        assert!(G_FCNT == start || G_FCNT == start.wrapping_add(1), "C06: a step consumes at most one counter value");
-        assert!(G_HANDED <= 1, "C06: at most one frame is handed to the radio per step");
+        crate::vcheck!(G_FCNT == start || G_FCNT == start.wrapping_add(1), "C06: a step consumes at most one counter value");
+        crate::vcheck!(G_HANDED <= 1, "C06: at most one frame is handed to the radio per step");
         if st != 0 {
-            assert!(G_HANDED == 0, "C06: no new frame is handed to the radio while a transaction is in progress");
+            crate::vcheck!(G_HANDED == 0, "C06: no new frame is handed to the radio while a transaction is in progress");
         }
         // errors leave the machine able to complete: never Idle with the frame still in flight
         if result.is_err() && st != 0 {
-            assert!(!matches!(next, State::Idle(_)) || !inflight0 || !G_INFLIGHT, "C06: an error must not abandon an in-flight frame");
+            crate::vcheck!(!matches!(next, State::Idle(_)) || !inflight0 || !G_INFLIGHT, "C06: an error must not abandon an in-flight frame");
         }
     }
     // ---- C07: a frame the MAC does not accept keeps the receive window open, unchanged
     if st == 3 {
         if let (State::WaitingForRx(w), Ok(Response::NoUpdate)) = (&next, &result) {
-            assert!(w.rf_config == rf && w.rx_windows.rx1 == windows.rx1 && w.rx_windows.rx2 == windows.rx2, "C07: NoUpdate keeps the receive window and its configuration");
+            crate::vcheck!(w.rf_config == rf && w.rx_windows.rx1 == windows.rx1 && w.rx_windows.rx2 == windows.rx2, "C07: NoUpdate keeps the receive window and its configuration");
         }
     }
     // ---- C10: window timing
     if let Ok(Response::TimeoutRequest(t)) = &result {
         if st == 3 {
             if let (Rx::_1(t1), State::WaitingForRxWindow(n)) = (window, &next) {
-                assert!(*t == t1 + 1000, "C10: RX2 opens one second after RX1");
-                assert!(matches!(n.window, Rx::_2(x) if x == t1 + 1000), "C10: RX2 window bookkeeping");
-                assert!(n.rx_windows.rx2 == windows.rx2, "C10: RX2 uses the configuration bound at TX time");
+                crate::vcheck!(*t == t1 + 1000, "C10: RX2 opens one second after RX1");
+                crate::vcheck!(matches!(n.window, Rx::_2(x) if x == t1 + 1000), "C10: RX2 window bookkeeping");
+                crate::vcheck!(n.rx_windows.rx2 == windows.rx2, "C10: RX2 uses the configuration bound at TX time");
             }
         }
     }
